@@ -210,7 +210,7 @@ func init() {
 		ID:     "C16",
 		Word32: true,
 		Level:  "exploration",
-		Rule: "E1 bounded-exhaustive enumeration: key sets = every non-empty subset (in sorted order) of the 13 strings of length ≤2 over {00,'a',ff}, each behind the stems of 0/7/8/9/16/17/24/31/32/33/64/65 bytes; every subset of 12 keys built from 4 stem variants (first byte 's'/0x00/0xff, eighth byte 0x80); every subset of the 13 strings of length ≤2 over {'a',80,c3} and over {7f,80,bf} (UTF-8 continuation and lead bytes); every subset of 5 short keys behind EVERY stem length 0..80; two key sets with a full 256-byte fan-out below one key; four large key sets taken whole (31, 63, 121 and 341 keys); every subset of 12 keys built from 3 variants of a 17-byte (and of a 25-byte) stem that differ in the first 8-byte chunk and agree in the later ones × 4 tails; chains a, aa, aaa, ... of 33, 34, 65, 66 keys (C17 also 130 and 258) and a 36-level directory tree taken whole (deep nesting); every subset of the 15 strings of length ≤3 over {00,'a'} and every subset of size ≤4 of the 40 strings of length ≤3 over {00,'a',ff} behind stems of 0 and 8 bytes (thorough adds every subset of the 21 strings of length ≤2 over {00,01,'a',ff} and the subsets of size 5..6 of the 40 strings): FirstDiffBits on the set; New+CountPrefixes for every 0 ≤ s, s+2 ≤ e ≤ len and every m in {1,2,4,7,10,17,26}, preceded - on sets of 2..5 keys - by one call over the whole set with m = 3000 (m has no upper bound) on the same SigBits object; a BYTE-LANE sweep: 8-byte keys with a class byte ('a'/80/ff) in lane L and the difference in lane D, every ordered pair (L, D), all subsets of the 6 keys, stems 0 and 8. Generated key lists of EVERY threshold size n = b-1, b, b+1 (b in 2^k, 3·2^k, 10^k, 2·10^k, 5·10^k) from 1000 up to 400001 keys (thorough: 2^20+1), in two styles ('k'+3-byte big-endian counter; 8-byte stem + 7 decimal digits): FirstDiffBits on the list, CountPrefixes (m in {1,7,17} and the FULL depth: two bits beyond the deepest first difference of the range) over the whole list, its halves and short ranges around every 1/8th. LONG keys: eight keys around a shared stem of EVERY threshold length 81..70000 (thorough 2^20+1) bytes (keys and shared prefixes beyond 255, 4095, 65535 bytes), same calls. UNSORTED lists (the first clause is about every list): FirstDiffBits on every list of 1..4 (thorough 5) keys, repetitions included, over 15 keys (short keys, prefixes of each other, keys sharing 8, 16, 17 and 25 bytes, stem variants that differ early and agree later). " +
+		Rule: "E1 bounded-exhaustive enumeration: key sets = every non-empty subset (in sorted order) of the 13 strings of length ≤2 over {00,'a',ff}, each behind the stems of 0/7/8/9/16/17/24/31/32/33/64/65 bytes; every subset of 12 keys built from 4 stem variants (first byte 's'/0x00/0xff, eighth byte 0x80); every subset of the 13 strings of length ≤2 over {'a',80,c3} and over {7f,80,bf} (UTF-8 continuation and lead bytes); every subset of 5 short keys behind EVERY stem length 0..80; two key sets with a full 256-byte fan-out below one key; four large key sets taken whole (31, 63, 121 and 341 keys); every subset of 12 keys built from 3 variants of a 17-byte (and of a 25-byte) stem that differ in the first 8-byte chunk and agree in the later ones × 4 tails; chains a, aa, aaa, ... of 33, 34, 65, 66 keys (C17 also 130 and 258) and a 36-level directory tree taken whole (deep nesting); every subset of the 15 strings of length ≤3 over {00,'a'} and every subset of size ≤4 of the 40 strings of length ≤3 over {00,'a',ff} behind stems of 0 and 8 bytes (thorough adds every subset of the 21 strings of length ≤2 over {00,01,'a',ff} and the subsets of size 5..6 of the 40 strings): FirstDiffBits on the set; New+CountPrefixes for every 0 ≤ s, s+2 ≤ e ≤ len and every m in {1,2,4,7,10,17,26}, preceded - on sets of 2..5 keys - by one call over the whole set with m = 3000 (m has no upper bound) on the same SigBits object; a BYTE-LANE sweep: 8-byte keys with a class byte ('a'/80/ff) in lane L and the difference in lane D, every ordered pair (L, D), all subsets of the 6 keys, stems 0 and 8. Generated key lists of EVERY threshold size n = b-1, b, b+1 (b in 2^k, 3·2^k, 10^k, 2·10^k, 5·10^k) from 1000 up to 400001 keys (thorough: 2^20+1), in two styles ('k'+3-byte big-endian counter; 8-byte stem + 7 decimal digits): FirstDiffBits on the list, CountPrefixes (m in {1,7,17} and the FULL depth: two bits beyond the deepest first difference of the range) over the whole list, its halves and short ranges around every 1/8th. LONG keys: eight keys around a shared stem of EVERY threshold length 81..70000 (thorough 2^20+1) bytes (keys and shared prefixes beyond 255, 4095, 65535 bytes), same calls. An m SWEEP: every m from 1 to beyond the deepest first difference on 15 key sets whose spread between smallest and largest first-difference bit runs from a few bits to 800 (one pair differing in its first byte, another behind a shared prefix of 0..100 more bytes), all ranges. UNSORTED lists (the first clause is about every list): FirstDiffBits on every list of 1..4 (thorough 5) keys, repetitions included, over 15 keys (short keys, prefixes of each other, keys sharing 8, 16, 17 and 25 bytes, stem variants that differ early and agree later). " +
 			"Oracle: first differing index of the '0'/'1' renderings (8·min(len) for a byte-prefix); m0 = minimum over the range; counter i = number of distinct values of the bit string truncated to m0+i bits (adjacent-compare count in the hot path, cross-checked against a map count). A case is one call; non-trivial when the range holds ≥3 keys or the set has a shared stem; key sets that re-occur in a later family are executed again but counted once.",
 		Assumptions: []string{"key sets are drawn from small byte alphabets behind fixed stems; the 8-byte chunk boundaries are crossed through the stems"},
 		Run:         c16Run,
@@ -729,11 +729,59 @@ func c16Run(c *mc.Ctx) {
 	})
 	c16Big(c)
 	c16Unsorted(c)
+	c16MSweep(c)
 }
 
 // c16Unsorted: the first clause holds for EVERY non-empty list of keys, sorted or not, with repeated
 // keys or not: FirstDiffBits on every list of 1..4 (thorough 5) keys over 15 keys (short keys, prefixes
 // of each other, keys sharing 8, 16, 17 and 25 bytes, stem variants that differ early and agree later).
+// c16MSweep: EVERY m from 1 to beyond the deepest first difference, on key sets in which one pair differs in
+// its first byte and another only behind a shared prefix of L more bytes (L = 0..100 around 8, 16, 32, 64): the
+// spread between the smallest and the largest first-difference bit runs from a few bits to 800, and m crosses
+// it - and every round number on the way (256, 257, 512) - one step at a time. All ranges, one SigBits object.
+func c16MSweep(c *mc.Ctx) {
+	Ls := []int{0, 1, 7, 8, 15, 16, 30, 31, 32, 33, 40, 63, 64, 65, 100}
+	for _, L := range Ls {
+		c.Expect(6 * int64(8*(L+3)+12))
+	}
+	c.Par(len(Ls), func(li int) {
+		L := Ls[li]
+		x := strings.Repeat("x", L)
+		keys := []string{"a", "b" + x + "0", "b" + x + "1", "c"}
+		bits := make([]string, len(keys))
+		for i, k := range keys {
+			bits[i] = ref.Bits(k)
+		}
+		maxM := 8*(L+3) + 12
+		sb := sigbits.New(keys)
+		n := int32(len(keys))
+		var evals int64
+		for s := int32(0); s+2 <= n; s++ {
+			for e := s + 2; e <= n; e++ {
+				m0, cnt := refCounts(bits, keys, s, e, maxM)
+				for m := int32(1); m <= int32(maxM); m++ {
+					gm, gc, p := func() (a int32, b []int32, p string) {
+						defer func() {
+							if e := recover(); e != nil {
+								p = fmt.Sprint("panic: ", e)
+							}
+						}()
+						a, b = sb.CountPrefixes(s, e, m)
+						return
+					}()
+					if p != "" || gm != m0 || !eqI32(gc, cnt[:m]) {
+						c.Fail(int64(6)<<56|int64(li)<<32|int64(s)<<28|int64(e)<<24|int64(m), "CountPrefixes", "CountPrefixes/m-sweep",
+							c16Case{Keys: gen.BytesList(append([]string(nil), keys...)), S: s, E: e, M: m}, fmt.Sprintf("%s(%d,%s)", p, gm, c16DiffSummary(gc, cnt[:m])), fmt.Sprintf("(%d,equal to the reference)", m0))
+					}
+					evals++
+				}
+			}
+		}
+		c.Count(evals, evals)
+		c.Add("m_sweep_cases", evals)
+	})
+}
+
 func c16Unsorted(c *mc.Ctx) {
 	u := []string{"", "a", "b", "\x00", "a\x00", "ab",
 		c09StemV(8, 0), c09StemV(8, 0) + "a", c09StemV(9, 0), c09StemV(16, 0),
@@ -850,7 +898,7 @@ func c16Judge(kind string, cs c16Case) (got, want string) {
 	case "CountPrefixes":
 		m0, _ := refCounts(bits, keys, cs.S, cs.E, 0)
 		cnt := refCountsMap(bits, cs.S, cs.E, m0, int(cs.M))
-		if cs.M == c16BigM {
+		if cs.M == c16BigM || cs.M > 40 {
 			gm, gc, p := countPrefixes(keys, cs.S, cs.E, cs.M)
 			return fmt.Sprintf("%s(%d,%s)", p, gm, c16DiffSummary(gc, cnt)), fmt.Sprintf("(%d,equal to the reference)", m0)
 		}
